@@ -331,6 +331,54 @@ def suseRows : List Row :=
       | .unsupported => none)
     | _, _ => none
 
+/-! ### every row of the release tables, on generated files
+
+  aws / oracle / photon: for every row (release, regexp) of the scanner's
+  table, the file is the sample text of the regexp; the updater side is the
+  Distribution of the release with that name.  suse: every major the updater
+  factory's file-name expression admits (`[1-9][1-9]`), with an os-release
+  whose CPE_NAME is `cpe:/o:suse:sles:<major>:sp3`; Leap 15.5 … 16.3. -/
+
+def sampleRows (samples : List (Bytes × Bytes)) (scan : Option Bytes → ScanOut) (upd : Bytes → Dist) : List Row :=
+  samples.map fun p => ⟨p.1, scan (some p.2), upd p.1⟩
+
+def awsSampleRows : List Row := sampleRows JoinReleases.aws.regexSamples awsScan awsUpdDist
+def photonSampleRows : List Row := sampleRows JoinReleases.photon.regexSamples photonScan photonUpdDist
+def oracleSampleRows : List Row :=
+  JoinReleases.oracle.regexSamples.filterMap fun p =>
+    (oraclePlatformDist (oraclePlatform p.1)).map fun u => ⟨p.1, oracleScan (some p.2), u⟩
+
+def digits19 : List Nat := [49, 50, 51, 52, 53, 54, 55, 56, 57]
+def suseMajors : List Bytes := digits19.flatMap fun a => digits19.map fun b => [a, b]
+
+/-- `NAME="SLES"` / `ID="sles"` / `CPE_NAME="cpe:/o:suse:sles:<major>:sp3"` -/
+def suseELOsRelease (maj : Bytes) : Bytes :=
+  [78, 65, 77, 69, 61, 34, 83, 76, 69, 83, 34, 10, 73, 68, 61, 34, 115, 108, 101, 115, 34, 10,
+   67, 80, 69, 95, 78, 65, 77, 69, 61, 34, 99, 112, 101, 58, 47, 111, 58, 115, 117, 115, 101, 58, 115, 108, 101, 115, 58] ++ maj ++
+  [58, 115, 112, 51, 34, 10]
+
+def suseELAllRows : List Row :=
+  suseMajors.filterMap fun maj =>
+    match suseELVersion (suseHref maj) with
+    | none => none
+    | some v => (match suseScan (suseELOsRelease maj) with
+      | .out o => some ⟨maj, o, suseELDist v⟩
+      | .unsupported => none)
+
+def suseLeapVersions : List Bytes :=
+  [[49, 53, 46, 53], [49, 53, 46, 54], [49, 53, 46, 55], [49, 53, 46, 49, 48], [49, 54, 46, 48], [49, 54, 46, 51]]
+
+/-- `NAME="openSUSE Leap"` / `CPE_NAME="cpe:/o:opensuse:leap:<version>"` -/
+def suseLeapOsRelease (ver : Bytes) : Bytes :=
+  [78, 65, 77, 69, 61, 34, 111, 112, 101, 110, 83, 85, 83, 69, 32, 76, 101, 97, 112, 34, 10,
+   67, 80, 69, 95, 78, 65, 77, 69, 61, 34, 99, 112, 101, 58, 47, 111, 58, 111, 112, 101, 110, 115, 117, 115, 101, 58, 108, 101, 97, 112, 58] ++ ver ++ [34, 10]
+
+def suseLeapRows : List Row :=
+  suseLeapVersions.filterMap fun ver =>
+    match suseScan (suseLeapOsRelease ver) with
+    | .out o => some ⟨ver, o, suseLeapDist ver⟩
+    | .unsupported => none
+
 /-! ### lifting a checked table -/
 
 theorem distAgree_lift (m : MatcherT) (hm : distroMatcher m = true) (d u : Dist) (h : distAgree m d u = true)
